@@ -200,3 +200,46 @@ def validate_steps(p, runs, rng, per=8):
         if g != e:
             return (w, g, e)
     return None
+
+
+def first_draw_counts(binary, build, rng, specs, what):
+    """exact preimage counts of the FIRST draw of an index-like operation, by interval search on the implementation:
+    specs = [(label, number of outcomes r, word bits L, mk(word) -> request, parse(result) -> outcome index or None [, mk2(word1, word2) -> request])].
+    With mk2 and few outcomes the draw AFTER a rejection is counted too: when the first stage is exactly uniform and only one or two first
+    words are rejected, the second words behind each of them must again be mapped onto the outcomes in equal numbers (otherwise the totals
+    over word pairs differ)."""
+    total = 0
+    for spec in specs:
+        label, r, L, mk, parse = spec[:5]
+        mk2 = spec[5] if len(spec) > 5 else None
+        p = Prober(binary, mk, parse)
+        vals = sorted({0, 1, r - 1, r // 2, rng.below(r), rng.below(r)}) if r > 8 else list(range(r))
+        msg, info = count_values(p, r, L, [v for v in vals if 0 <= v < r], rng, label)
+        total += p.calls
+        if msg == "inconclusive":
+            yield {"kind": "note", "text": "preimage count inconclusive for %s: %s" % (label, info)}
+        elif msg:
+            yield {"kind": "oracle", "build": build, "request": mk(info[min(info)][0]), "impl": str({k: v for k, v in info.items()})[:600], "model": "", "oracle": msg}
+        elif mk2 and r <= 8 and len(info) == r:
+            B = 1 << L
+            rej, prev = [], -1
+            for f, l in sorted((v[0], v[1]) for v in info.values()):
+                if f - prev - 1 > 0:
+                    rej.append((prev + 1, f - 1))
+                prev = l
+            if prev < B - 1:
+                rej.append((prev + 1, B - 1))
+            nrej = sum(b - a + 1 for a, b in rej)
+            if 0 < nrej <= 2:
+                for a, b in rej:
+                    for w1 in range(a, b + 1):
+                        p2 = Prober(binary, (lambda W, w1=w1: mk2(w1, W)), parse)
+                        lab2 = "%s after the rejected first word %d" % (label, w1)
+                        msg2, info2 = count_values(p2, r, L, list(range(r)), rng, lab2)
+                        total += p2.calls
+                        if msg2 == "inconclusive":
+                            yield {"kind": "note", "text": "preimage count inconclusive for %s: %s" % (lab2, info2)}
+                        elif msg2:
+                            yield {"kind": "oracle", "build": build, "request": mk2(w1, info2[min(info2)][0]), "impl": str({k: v for k, v in info2.items()})[:600], "model": "",
+                                   "oracle": msg2 + " - the first stage is exactly uniform and rejects only %d word(s), so the numbers of word PAIRS behind the outcomes differ" % nrej}
+    yield {"kind": "count", "what": what, "n": total}
